@@ -61,7 +61,7 @@ def node_columns(case):
     return out
 
 
-def prune_dead(case):
+def prune_dead(case, concat_pick=0):
     """Independent liveness analysis at spec level: remove assignments whose outputs nothing downstream reads
     (they may mention unreported columns without influencing the result). Exact for this operator set:
     a column is needed iff it is in the final result, read by a live expression, a grouping / partition /
@@ -127,7 +127,10 @@ def prune_dead(case):
         elif op == "concat_rows":
             up = n - ({nd["id_column"]} if nd.get("id_column") else set())
             if not up:
-                up = {cols[nd["a"]][0]}
+                # only the row count of both sides matters; SOME column has to stay, which one is a free choice
+                # (the caller may retry with another concat_pick when the chosen one drags in dead inputs)
+                up = {cols[nd["a"]][concat_pick % len(cols[nd["a"]])]}
+                c["_free_concat_choice"] = max(c.get("_free_concat_choice", 0), len(cols[nd["a"]]))
             need[nd["a"]] |= up
             need[nd["b"]] |= up
         elif op == "convert_records":
@@ -148,9 +151,9 @@ def prune_dead(case):
     return c
 
 
-def narrow(case, used):
+def narrow(case, used, concat_pick=0):
     """Spec-level narrowing to the reported columns (after removing dead assignments)."""
-    c = prune_dead(case)
+    c = prune_dead(case, concat_pick)
     for tn, cols in used.items():
         t = c["tables"][tn]
         keep = [j for j, ent in enumerate(t["cols"]) if ent[0] in cols]
@@ -287,6 +290,23 @@ def check(case):
         info["narrow_skipped_convert_records"] = True
         return None, info
     nc = narrow(case, used)
+    for k in range(1, nc.get("_free_concat_choice", 0)):
+        # a concat_rows of which only the id column is read: every choice of the one retained column is a valid
+        # reading of "narrowed pipeline"; take the first choice that can be built on the reported columns
+        try:
+            spec.build(nc)
+            break
+        except Exception:
+            nc = narrow(case, used, concat_pick=k)
+            info["concat_choice_retried"] = True
+    if nc.get("_free_concat_choice"):
+        try:
+            spec.build(nc)
+        except Exception:
+            # every retained column is computed from inputs that are (rightly) not reported: only the row count of
+            # the concat sides is read. The spec-level narrowing cannot express that; the perturbation part above stands.
+            info["narrow_skipped_rowcount_only_concat"] = True
+            return None, info
     if _empty_narrowed_step(nc):
         info["narrow_skipped_empty"] = True
         return None, info
@@ -353,7 +373,7 @@ def run(ctx):
         if info.get("narrowed"):
             fs = fs + ["narrowed_ok"]
         ev.note(case, nt, fs, sample={"program": c01._sample(case), "unused_columns": info.get("n_unused")})
-        for k in ("builder_rejected", "base_raised", "narrow_skipped_convert_records", "narrow_skipped_empty"):
+        for k in ("builder_rejected", "base_raised", "narrow_skipped_convert_records", "narrow_skipped_empty", "narrow_skipped_rowcount_only_concat", "concat_choice_retried"):
             if k in info:
                 ev.count(k)
         return f
